@@ -171,3 +171,138 @@ def attr_chain(node):
         parts.append(node.id)
         return list(reversed(parts))
     return None
+
+
+# ------------------------------------------------------------------------------------------------ row loops
+class RowLoop:
+    """The per-row loop of a _predict_contexts style function, in any of its usual spellings."""
+
+    def __init__(self):
+        self.loop = None
+        self.rows = None        # name of the parameter holding the rows
+        self.idx = None         # name of the row index variable (or None)
+        self.row = None         # name of the row variable (or None when rows are indexed)
+        self.seed = None        # name bound to the row's seed by zip(..., seeds) (or None)
+        self.out = None         # name of the result list
+        self.mode = None        # 'index' (pre-allocated, out[idx] = ...) or 'append' (empty list, out.append(...))
+        self.alloc = None
+        self.once = False       # exactly one write of the row's result on every path through the body
+
+
+def _count_writes(stmts, is_write):
+    """set of possible numbers of result writes over the paths through stmts (None = path leaves the iteration)"""
+    counts = {0}
+    for st in stmts:
+        if isinstance(st, ast.If):
+            a = _count_writes(st.body, is_write)
+            b = _count_writes(st.orelse, is_write)
+            counts = {c + x for c in counts for x in (a | b)}
+        elif isinstance(st, (ast.For, ast.While)):
+            inner = _count_writes(st.body, is_write)
+            if inner != {0}:
+                counts = {c + x for c in counts for x in (inner | {99})}
+        else:
+            k = sum(1 for n in ast.walk(st) if is_write(n))
+            counts = {c + k for c in counts}
+    return counts
+
+
+ROWWISE_METHODS = {"predict", "transform", "apply", "predict_proba", "decision_function"}
+
+
+def _zip_members(fn, loop, rows, seeds):
+    """(index name, row name, seed name) when the loop runs over zip(...) / enumerate(zip(...)) of the rows, the seeds
+    and per-row arrays computed from the rows (one entry per row, e.g. kmeans.predict(rows)); else None"""
+    import ast as _ast
+    it, tg = loop.iter, loop.target
+    idx = None
+    if isinstance(it, _ast.Call) and _ast.unparse(it.func) == "enumerate" and len(it.args) == 1 and not it.keywords \
+            and isinstance(tg, _ast.Tuple) and len(tg.elts) == 2 and isinstance(tg.elts[0], _ast.Name):
+        idx, it, tg = tg.elts[0].id, it.args[0], tg.elts[1]
+    if not (isinstance(it, _ast.Call) and _ast.unparse(it.func) == "zip" and not it.keywords and
+            isinstance(tg, _ast.Tuple) and len(tg.elts) == len(it.args) and
+            all(isinstance(e, _ast.Name) for e in tg.elts)):
+        return None
+    row = seed = None
+    for a, t in zip(it.args, tg.elts):
+        s = _ast.unparse(a)
+        if s == rows and row is None:
+            row = t.id
+        elif seeds and s == seeds and seed is None:
+            seed = t.id
+        elif isinstance(a, _ast.Name):
+            defs = [x.value for x in _ast.walk(fn.node) if isinstance(x, _ast.Assign) and len(x.targets) == 1 and
+                    isinstance(x.targets[0], _ast.Name) and x.targets[0].id == a.id]
+            if not (len(defs) == 1 and isinstance(defs[0], _ast.Call) and isinstance(defs[0].func, _ast.Attribute) and
+                    defs[0].func.attr in ROWWISE_METHODS and [_ast.unparse(x) for x in defs[0].args] == [rows]):
+                return None
+        else:
+            return None
+    if row is None and idx is None:
+        return None
+    if row is None:
+        return None
+    return idx, row, seed
+
+
+def row_loop_info(fn):
+    import ast as _ast
+    if len(fn.params) < 2:
+        return None
+    rows = fn.params[1]
+    seeds = "seeds" if "seeds" in fn.params else None
+    info = RowLoop()
+    info.rows = rows
+    for loop in [n for n in _ast.walk(fn.node) if isinstance(n, _ast.For)]:
+        it, tg = loop.iter, loop.target
+        its = " ".join(_ast.unparse(it).split())
+        names = [e.id if isinstance(e, _ast.Name) else None for e in tg.elts] if isinstance(tg, _ast.Tuple) else None
+        zipped = _zip_members(fn, loop, rows, seeds)
+        if its == "enumerate(%s)" % rows and names and len(names) == 2 and all(names):
+            info.idx, info.row = names
+        elif zipped is not None:
+            info.idx, info.row, info.seed = zipped
+        elif seeds and its == "zip(%s, %s)" % (rows, seeds) and names and len(names) == 2 and all(names):
+            info.row, info.seed = names
+        elif seeds and its == "zip(%s, %s)" % (seeds, rows) and names and len(names) == 2 and all(names):
+            info.seed, info.row = names
+        elif seeds and its in ("enumerate(zip(%s, %s))" % (rows, seeds),) and isinstance(tg, _ast.Tuple) and \
+                len(tg.elts) == 2 and isinstance(tg.elts[0], _ast.Name) and isinstance(tg.elts[1], _ast.Tuple) and \
+                all(isinstance(e, _ast.Name) for e in tg.elts[1].elts) and len(tg.elts[1].elts) == 2:
+            info.idx = tg.elts[0].id
+            info.row, info.seed = tg.elts[1].elts[0].id, tg.elts[1].elts[1].id
+        elif its == "range(len(%s))" % rows and isinstance(tg, _ast.Name):
+            info.idx = tg.id
+        elif its == rows and isinstance(tg, _ast.Name):
+            info.row = tg.id
+        else:
+            continue
+        info.loop = loop
+        break
+    if info.loop is None:
+        return None
+    # the result list
+    for st in _ast.walk(fn.node):
+        if isinstance(st, _ast.Assign) and len(st.targets) == 1 and isinstance(st.targets[0], _ast.Name) and \
+                st.lineno <= info.loop.lineno:
+            v = " ".join(_ast.unparse(st.value).split())
+            name = st.targets[0].id
+            if v in ("[None] * len(%s)" % rows, "len(%s) * [None]" % rows) and info.idx is not None:
+                def is_write(n, name=name):
+                    return isinstance(n, _ast.Assign) and len(n.targets) == 1 and \
+                        isinstance(n.targets[0], _ast.Subscript) and _ast.unparse(n.targets[0].value) == name and \
+                        _ast.unparse(n.targets[0].slice) == info.idx
+                if any(is_write(n) for n in _ast.walk(info.loop)):
+                    info.out, info.mode, info.alloc = name, "index", st
+                    info.once = _count_writes(info.loop.body, is_write) == {1}
+                    break
+            if v in ("[]", "list()"):
+                def is_app(n, name=name):
+                    return isinstance(n, _ast.Call) and isinstance(n.func, _ast.Attribute) and \
+                        n.func.attr == "append" and _ast.unparse(n.func.value) == name and len(n.args) == 1
+                if any(is_app(n) for n in _ast.walk(info.loop)):
+                    others = [n for n in _ast.walk(fn.node) if is_app(n) and not any(n is x for x in _ast.walk(info.loop))]
+                    info.out, info.mode, info.alloc = name, "append", st
+                    info.once = _count_writes(info.loop.body, is_app) == {1} and not others
+                    break
+    return info
